@@ -362,6 +362,66 @@ def run(tape, scenario, want_c10=False):
                             lst[cpu] = val
                             model[(dst[0], dst[1])] = lst
                     history.append(("run", cpu))
+                elif op == 3 and array_vars:
+                    # a Python-side write while the program runs on another CPU: instructions
+                    # of a program instance are executed between the lines of the library's
+                    # store. The written variable is one the program does
+                    # not touch; its neighbours in the map are what the program stores into
+                    touched = {(d[0], d[1]) for kind, dst, src in stmts
+                               for d in ((dst, src) if kind == "copy" else (dst,))}
+                    free = [d for d in array_vars if (d[0], d[1]) not in touched
+                            and d[2] != "x" and not d[2].endswith("s")]
+                    if not free or not stmts:
+                        continue
+                    import sys
+                    from ebpfcat.arraymap import ArrayGlobalVarDesc
+                    h, n, f, k = tape.pick("c08/racing-var", free)
+                    v = draw_value(tape, f)
+                    cpu = tape.draw("c08/cpu", online)
+                    inst = kernel.new_instance(prog, bytearray(64), cpu=cpu)
+                    done = [False]
+                    code = ArrayGlobalVarDesc.__set__.__code__
+
+                    def between(frame, event, arg):
+                        if event == "line" and not done[0] \
+                                and tape.chance("c08/program-steps-in-between", 40):
+                            for _ in range(1 + tape.draw("c08/steps-in-between", 6)):
+                                if inst.step():
+                                    done[0] = True
+                                    break
+                        return between
+
+                    def tracer(frame, event, arg):
+                        if frame.f_code is code:
+                            return between      # (line events: their number does not
+                            #                      depend on how warm the byte code is)
+                        return None
+                    sys.settrace(tracer)
+                    try:
+                        setattr(obj(h), n, v)
+                    finally:
+                        sys.settrace(None)
+                    try:
+                        for _ in range(20000):
+                            if done[0] or inst.step():
+                                break
+                    except Exception as e:
+                        viol("interpreter-fault", f"{type(e).__name__}: {e}")
+                        break
+                    model[(h, n)] = v
+                    for kind, dst, src in stmts:
+                        val = src if kind == "const" else (
+                            model[(src[0], src[1])] if src[3] == "array"
+                            else model[(src[0], src[1])][cpu])
+                        if dst[3] == "array":
+                            model[(dst[0], dst[1])] = val
+                        else:
+                            lst = list(model[(dst[0], dst[1])])
+                            lst[cpu] = val
+                            model[(dst[0], dst[1])] = lst
+                    runs += 1
+                    world.count("c08/python-write-while-the-program-runs")
+                    history.append(("py_write_racing", h, n, f, cpu))
                 elif op == 2 and pc_vars:
                     try:
                         p.pmap.read()
